@@ -27,6 +27,8 @@ DEFAULT_OPAQUE = {
     "get_pack_method_flags", "get_unpack_method_flags", "get_pack_method_default_flag_values",
     "get_unpack_method_default_flag_values", "get_overridden_serialization_method",
     "get_overridden_deserialization_method", "_get_encoder_kwargs",
+    # identifier makers (sanitisers of the kind analysis)
+    "clean_id", "random_hex",
 }
 
 
@@ -199,6 +201,8 @@ class Evaluator(PE):
                 els, open_ = self.iter_elems(a, p, e)
                 return [(Lst(els, open_, name=a.name), p)]
             return [(self.opaque_call(name, args, kwargs, e, args), p)]
+        if obj is builtins.tuple and not args:
+            return [(Tup([]), p)]
         if obj is builtins.list and not args:
             return [(Lst([], name=f"list@{e.lineno}"), p)]
         if obj is builtins.set and not args:
@@ -417,8 +421,6 @@ class Evaluator(PE):
                     parts.append(sep)
                 parts.extend(as_parts(el))
             if open_:
-                if els:
-                    parts.append(sep)
                 convs = set()
                 for el in els:
                     ps = as_parts(el)
@@ -426,7 +428,7 @@ class Evaluator(PE):
                 conv = convs.pop() if len(convs) == 1 and els else ""
                 if conv == "?":
                     conv = ""
-                parts.append(Hole(self.sym(f"more({show(args[0])})", e, [args[0]]), conv))
+                parts.append(Hole(self.sym(f"more({show(args[0])})", e, [args[0]]), conv, more=True, sep=sep))
             return [(Tmpl(parts), p)]
         if attr == "format" and not kwargs:
             # positional '{}' substitution only
@@ -530,7 +532,8 @@ class Evaluator(PE):
             or (not force and len(self.call_stack) > self.inline_depth)
             or any(f.key == key for f in self.call_stack)
         ):
-            return [(self.opaque_call(opaque_name, args, kwargs, e, list(args) + list(kwargs.values())), p)]
+            cargs, ckw = self._canonical_args(fv, args, kwargs)
+            return [(self.opaque_call(opaque_name, cargs, ckw, e, list(args) + list(kwargs.values())), p)]
         if any(d.endswith("contextmanager") for d in fi.decorators()):
             return self._contextmanager_call(fv, args, kwargs, p, e)
         if any(isinstance(n, (ast.While, ast.Yield, ast.YieldFrom)) for n in walk_no_nested(fi.node)):
@@ -604,6 +607,32 @@ class Evaluator(PE):
             return res
         finally:
             self.call_stack.pop()
+
+    def _canonical_args(self, fv: Func, args, kwargs):
+        """Drop arguments that equal the parameter's constant default, so that ``f(x)`` and
+        ``f(x, None)`` name the same opaque value (and hence the same atom)."""
+        a = fv.fi.node.args
+        params = a.posonlyargs + a.args
+        if fv.self_v is not None and "staticmethod" not in fv.fi.decorators() and params:
+            params = params[1:]
+        defaults = {}
+        for prm, d in zip(params[len(params) - len(a.defaults):], a.defaults):
+            if isinstance(d, ast.Constant):
+                defaults[prm.arg] = d.value
+        for prm, d in zip(a.kwonlyargs, a.kw_defaults):
+            if isinstance(d, ast.Constant):
+                defaults[prm.arg] = d.value
+        args = list(args)
+        while args and len(args) <= len(params):
+            prm = params[len(args) - 1].arg
+            v = args[-1]
+            if prm in defaults and isinstance(v, Const) and v.v == defaults[prm] and type(v.v) is type(defaults[prm]):
+                args.pop()
+            else:
+                break
+        kw = {k: v for k, v in kwargs.items()
+              if not (k in defaults and isinstance(v, Const) and v.v == defaults[k] and type(v.v) is type(defaults[k]))}
+        return args, kw
 
     def _contextmanager_call(self, fv: Func, args, kwargs, p: Path, e):
         """Accepted idiom: ``@contextmanager def indent(self, expr=None): with <lines>.indent(expr): yield``."""
